@@ -59,7 +59,7 @@ def cases(tier, rng, dist):
             hi = 7 if spec == "liptak" else 8
             seq.append({"comb": spec, "plus1": rng.random() < 0.7, "p": [str(Fraction(rng.randint(1, hi), 8)) for _ in range(n)],
                         "same_p": rng.random() < 0.5})
-        yield {"f": "session", "distr": [[str(v) for v in r] for r in m], "seq": seq}
+        yield {"f": "session", "distr": [[str(v) for v in r] for r in m], "seq": seq, "layout": rng.choice(["C", "F", "F", "T"])}
     for _ in range(60 if tier == "quick" else 600):
         n = rng.randint(1, 6)
         yield {"f": "comb", "p": [str(Fraction(rng.randint(1, 16), 16)) for _ in range(n)], "size": [rng.choice([1, 4, 9, 16, 25, 100]) for _ in range(n)]}
@@ -100,11 +100,21 @@ def second(c):
 
 def run(c):
     if c["f"] == "comb":
-        p = np.array([float(Fraction(x)) for x in c["p"]]); size = np.array(c["size"])
-        return {"fisher": float(NPC.fisher(p)), "liptak": float(NPC.liptak(p)) if all(x < 1 for x in p) else None,
-                "tippett": float(NPC.tippett(p)), "inw": float(NPC.inverse_n_weight(p, size))}
+        p = np.array([float(Fraction(x)) for x in c["p"]])
+        size = np.array(c["size"], dtype=[np.int64, float, float][len(c["p"]) % 3]); size0 = size.copy(); p0 = p.copy()
+        out = {"fisher": float(NPC.fisher(p)), "liptak": float(NPC.liptak(p)) if all(x < 1 for x in p) else None,
+               "tippett": float(NPC.tippett(p)), "inw": float(NPC.inverse_n_weight(p, size))}
+        out["inw_again"] = float(NPC.inverse_n_weight(p, size))          # same objects, second call
+        out["args_unmodified"] = bool((size == size0).all() and (p == p0).all())
+        return out
     if c["f"] == "session":
-        d = np.array([[float(Fraction(v)) for v in r] for r in c["distr"]]); d0 = d.copy()
+        d = np.array([[float(Fraction(v)) for v in r] for r in c["distr"]])
+        # memory layout of the caller's matrix: C order, Fortran order owning its data (e.g. built column by column), or a transposed view
+        if c.get("layout") == "F":
+            d = np.asfortranarray(d)
+        elif c.get("layout") == "T":
+            d = np.ascontiguousarray(d.T).T
+        d0 = d.copy()
         pv = np.array([float(Fraction(x)) for x in c["seq"][0]["p"]])
         out = []
         for st in c["seq"]:
@@ -134,6 +144,10 @@ def oracle(c, o):
         for k, w in want.items():
             if abs(o[k] - w) > 1e-9 * (1 + abs(w)):
                 return {"why": f"{k}({c['p']}) = {o[k]}, documented formula gives {w}", "cls": f"comb:{k}"}
+        if not o.get("args_unmodified", True):
+            return {"why": f"a combining function modified its arguments (p={c['p']}, size={c['size']})", "cls": "comb:input-modified"}
+        if "inw_again" in o and o["inw_again"] != o["inw"]:
+            return {"why": f"inverse_n_weight called twice with the same objects: {o['inw']} then {o['inw_again']}", "cls": "comb:inw"}
         return None
     if c["f"] == "bad":
         for k in ("npc", "fwer"):
